@@ -40,3 +40,12 @@ pub open spec fn ids_run(ids: Seq<u32>, fsm: &Fsm, ms: Seq<Seq<Ev>>, r: bool) ->
     &&& (r ==> ms.len() == ids.len() + 1)
     &&& (!r ==> ms.len() >= 2)
 }
+
+/// the log after evaluating a condition: the evaluation, and -- if it failed -- the error.execution it must raise
+pub open spec fn after_cond(l0: Seq<Ev>, cond: Data, c: Option<bool>) -> Seq<Ev> {
+    if c.is_none() {
+        l0.push(Ev::Cond(cond, c)).push(Ev::ErrorExecution)
+    } else {
+        l0.push(Ev::Cond(cond, c))
+    }
+}
